@@ -43,6 +43,11 @@ Failed(t) ==
         UPair(e) == {e[1], e[2]}
         AllRet == UNION {{<<x, y>> : y \in DOMAIN calls[x].ret} : x \in DOMAIN calls}
         OnceOverall(p) == Cardinality({z \in AllRet : UPair(calls[z[1]].ret[z[2]]) = p}) = 1
+        \* tables computed once per trace (the network clauses were quadratic in the number of edges per lookup before)
+        retPairs == {UPair(calls[z[1]].ret[z[2]]) : z \in AllRet}
+        retCount == TLCEval([p \in retPairs |-> Cardinality({z \in AllRet : UPair(calls[z[1]].ret[z[2]]) = p})])
+        netAttr == TLCEval([p \in {UPair(t.net_edges[k]) : k \in DOMAIN t.net_edges} |->
+                              t.net_attr[CHOOSE k \in DOMAIN t.net_edges : UPair(t.net_edges[k]) = p]])
         clauses == IF Which = "C01" THEN C01Clauses ELSE C02Clauses
         (* C02, fast path: rows in call order, one block per call (what every known implementation produces).  Orientation of
            an undirected edge is not part of the property (C04: "up to edge order and orientation"). *)
@@ -96,13 +101,14 @@ Failed(t) ==
             \* network variant: an edge whose pair was produced exactly once carries the name / id of the call that produced it
          [] c = "network_edge_names" -> t.has_net /\ \E cc \in DOMAIN calls : \E i \in DOMAIN calls[cc].ret :
                  LET p == UPair(calls[cc].ret[i]) IN
-                 OnceOverall(p) /\ \E k \in DOMAIN t.net_edges : UPair(t.net_edges[k]) = p /\ t.net_attr[k][1] # NameAt(calls[cc].m, i)
+                 p \in DOMAIN netAttr /\ retCount[p] = 1 /\ netAttr[p][1] # NameAt(calls[cc].m, i)
          [] c = "network_edge_ids" -> t.has_net /\
-                 LET idOf(cc, i) == t.net_attr[CHOOSE k \in DOMAIN t.net_edges : UPair(t.net_edges[k]) = UPair(calls[cc].ret[i])][2]
-                     once(cc) == {i \in DOMAIN calls[cc].ret : OnceOverall(UPair(calls[cc].ret[i])) /\
-                                    \E k \in DOMAIN t.net_edges : UPair(t.net_edges[k]) = UPair(calls[cc].ret[i])}
-                 IN \/ \E cc \in DOMAIN calls : \E i, j \in once(cc) : idOf(cc, i) # idOf(cc, j)
-                    \/ \E cc, d \in DOMAIN calls : cc # d /\ \E i \in once(cc) : \E j \in once(d) : idOf(cc, i) = idOf(d, j)
+                 LET idsOf(cc) == {netAttr[UPair(calls[cc].ret[i])][2] :
+                                     i \in {j \in DOMAIN calls[cc].ret : UPair(calls[cc].ret[j]) \in DOMAIN netAttr /\ retCount[UPair(calls[cc].ret[j])] = 1}}
+                     perCall == TLCEval([cc \in DOMAIN calls |-> idsOf(cc)])
+                     allIds == UNION {perCall[cc] : cc \in DOMAIN calls}
+                 IN \/ \E cc \in DOMAIN calls : Cardinality(perCall[cc]) > 1                       \* one instance, one id
+                    \/ SumSeq([cc \in DOMAIN calls |-> Cardinality(perCall[cc])]) # Cardinality(allIds)   \* distinct instances, distinct ids
          [] c = "parallel" -> t.has_cols /\ ~par
          [] c = "pairs" -> t.has_cols /\ \E i \in DOMAIN t.pair_ok : ~t.pair_ok[i]
          [] c = "edges_are_returned" -> t.has_cols /\ par /\ Len(t.edge) # total
